@@ -4,7 +4,7 @@ own test suite kills are dropped (the brief asks for changes that still pass the
 relevant quick checks.  Survivors (no check goes red) are written to <out>/survivors.jsonl for triage: each is either an
 equivalent mutant or a gap in the checks.
 
-usage: tools/mutate.py --out DIR [--per-file N] [--seed S] [--files a816/cpu/mapping.py,...] [--recheck survivors.jsonl]
+usage: tools/mutate.py --out DIR [--per-file N] [--seed S] [--kinds del] [--files a816/cpu/mapping.py,...] [--recheck survivors.jsonl]
 """
 import ast, copy, json, os, random, shutil, subprocess, sys, tempfile, time
 
@@ -54,7 +54,39 @@ def sites(tree):
             out.append(("delcall", node, None))
         elif isinstance(node, ast.AugAssign):
             out.append(("aug", node, None))
+        # clean-up shaped mutations: something that looks redundant is removed
+        if isinstance(node, ast.Assign) or (isinstance(node, ast.AnnAssign) and node.value is not None):
+            out.append(("delassign", node, None))
+        if isinstance(node, ast.If):
+            out.append(("delif" if not node.orelse else "keepelse", node, None))
+            if node.orelse:
+                out.append(("keepbody", node, None))
+            for sub in node.body + node.orelse:
+                if isinstance(sub, (ast.Return, ast.Raise, ast.Continue, ast.Break)):
+                    out.append(("deljump", sub, None))
+        if isinstance(node, ast.Try) and node.finalbody:
+            out.append(("delfinally", node, None))
+        if isinstance(node, ast.Call) and not node.keywords:
+            if isinstance(node.func, ast.Name) and node.func.id in UNWRAP and len(node.args) == 1 and not isinstance(node.args[0], ast.Starred):
+                out.append(("unwrap", node, None))
+            elif isinstance(node.func, ast.Attribute) and node.func.attr in UNWRAP_METHODS and not node.args:
+                out.append(("unwrapm", node, None))
     return out
+
+
+UNWRAP = {"sorted", "list", "dict", "set", "tuple", "int", "bytes", "str", "abs", "reversed", "copy", "deepcopy", "bool"}
+UNWRAP_METHODS = {"lower", "upper", "strip", "lstrip", "rstrip", "copy"}
+DEL_KINDS = {"delcall", "delassign", "delif", "keepelse", "keepbody", "deljump", "delfinally", "unwrap", "unwrapm"}
+
+
+def _become(node, other):
+    node.__class__ = other.__class__
+    for k in list(node.__dict__):
+        if k not in ("lineno", "col_offset", "end_lineno", "end_col_offset"):
+            del node.__dict__[k]
+    for k, v in other.__dict__.items():
+        if k not in ("lineno", "col_offset", "end_lineno", "end_col_offset"):
+            node.__dict__[k] = v
 
 
 def apply(kind, node, idx):
@@ -88,6 +120,27 @@ def apply(kind, node, idx):
     if kind == "delcall":
         node.value = ast.Constant(value=None)
         return "call statement removed"
+    if kind in ("delassign", "delif", "deljump"):
+        what = type(node).__name__
+        _become(node, ast.Pass())
+        return f"{what} statement removed"
+    if kind == "keepelse":
+        node.test = ast.Constant(value=False)
+        return "if/else -> else branch only"
+    if kind == "keepbody":
+        node.test = ast.Constant(value=True)
+        return "if/else -> first branch only"
+    if kind == "delfinally":
+        node.finalbody = [ast.Pass()]
+        return "finally body removed"
+    if kind == "unwrap":
+        name = node.func.id
+        _become(node, node.args[0])
+        return f"{name}(x) -> x"
+    if kind == "unwrapm":
+        name = node.func.attr
+        _become(node, node.func.value)
+        return f"x.{name}() -> x"
     if kind == "aug":
         old = type(node.op).__name__
         node.op = ast.Sub() if isinstance(node.op, ast.Add) else ast.Add()
@@ -168,12 +221,14 @@ def main():
                     print(rec["result"], rec["file"], rec["line"], rec["desc"], "|", rec["source_line"][:80], flush=True)
         return
     rng = random.Random(seed)
+    only_del = "--kinds" in args and args[args.index("--kinds") + 1] == "del"
     log = open(os.path.join(out, "log.jsonl"), "a")
     surv = open(os.path.join(out, "survivors.jsonl"), "a")
     for rel in files:
         src = open(os.path.join("/repo", rel)).read()
-        n_sites = len(sites(ast.parse(src)))
-        picks = rng.sample(range(n_sites), min(per_file, n_sites))
+        all_sites = sites(ast.parse(src))
+        pool = [i for i, (k, _, _) in enumerate(all_sites) if not only_del or k in DEL_KINDS]
+        picks = rng.sample(pool, min(per_file, len(pool)))
         for pick in picks:
             rec = evaluate(rel, src, pick)
             if rec is None:
